@@ -88,7 +88,7 @@ def wrapper_lib(ctx):
     return L
 
 
-def unit_subsampling(mode, excl, mc_kind):
+def unit_subsampling(mode, excl, mc_kind, ru=True):
     ctx_holder = {}
 
     def lib():
@@ -132,7 +132,7 @@ def unit_subsampling(mode, excl, mc_kind):
         bs = z3.Int("batch_size")
         ctx["bs"] = bs
         ctx["args"] = [selfo, X, y]
-        ctx["kwargs"] = {"candidates": cand, "batch_size": bs, "return_utilities": True}
+        ctx["kwargs"] = {"candidates": cand, "batch_size": bs, "return_utilities": ru}
         return ctx
 
     def post(E, ctx, outs):
@@ -245,6 +245,15 @@ def unit_subsampling(mode, excl, mc_kind):
                 E.oblige("C20.sub.inner_candidates_are_the_drawn_rows", st, z3.BoolVal(g is not None and g[0] is ctx["cand"] and g[1] is nc))
             # --- result
             val = o.value
+            if not ru:
+                qo = arr_of(val, st) if isinstance(val, Ref) else None
+                if qo is None or qo.ndim != 1:
+                    E.oblige("C20.sub.returns_indices", st, False)
+                    continue
+                E.oblige("C20.sub.one_index_per_inner_selection", st, to_int(qo.shape[0]) == b)
+                tq = fresh("t", I)
+                E.oblige("C20.sub.selected_only_from_the_subsample", st.pc + [0 <= tq, tq < b], in_nc(to_int(qo.sel(tq))))
+                continue
             if not (isinstance(val, tuple) and len(val) == 2):
                 E.oblige("C20.sub.returns_indices_and_utilities", st, False)
                 continue
@@ -268,7 +277,7 @@ def unit_subsampling(mode, excl, mc_kind):
             else:
                 inner_col = z3.Exists([t], z3.And(0 <= t, t < k, to_int(nc.sel(t)) == jc3, _same_fv(NU.sel(rc, jc3), U.sel(rc, t))))
             E.oblige("C20.sub.utilities_of_the_subsample_are_the_wrapped_strategys", hyp, z3.Implies(in_nc(jc3), inner_col))
-    return se_unit(f"pool_wrappers.SubSamplingWrapper.query.{mode}.{'exclude' if excl else 'keep'}.{mc_kind}", FW, f"{CLS}.query", CLS, setup, post,
+    return se_unit(f"pool_wrappers.SubSamplingWrapper.query.{mode}.{'exclude' if excl else 'keep'}.{mc_kind}{'' if ru else '.indices_only'}", FW, f"{CLS}.query", CLS, setup, post,
                    lib_factory=lib)
 
 
@@ -297,3 +306,4 @@ for md in ("none", "idx", "rows"):
     for ex in (False, True):
         for mk in ("int", "ratio"):
             UNITS[f"sub.{md}.{ex}.{mk}"] = unit_subsampling(md, ex, mk)
+        UNITS[f"sub.{md}.{ex}.int.indices_only"] = unit_subsampling(md, ex, "int", ru=False)
